@@ -451,6 +451,8 @@ def find_sub(hay, needle, start=0):
 def apply_sub(toks, sub, hits):
     """sub = (rule, from_text, to_text, count) ; count int or '*'"""
     rule, frm, to, count = sub
+    if re.search(r'\$[A-Z]\b', frm):
+        return apply_sub_wild(toks, sub, hits)
     ft = texts(toks_of(frm))
     hay = texts(toks)
     pos = []
@@ -480,6 +482,76 @@ def apply_sub(toks, sub, hits):
     return out
 
 
+def apply_sub_wild(toks, sub, hits):
+    """a substitution whose from-text holds expression wildcards $E, $F, ...: each stands for the expression that starts
+    there (through expr_end: up to a depth-0 ';' ',' or the unmatched closing bracket) and is copied, token for token,
+    to where the to-text names it - so the rewrite fixes the shape around an expression, not the expression"""
+    rule, frm, to, count = sub
+    parts = re.split(r'(\$[A-Z])\b', frm)
+    pat = []
+    for x in parts:
+        if re.fullmatch(r'\$[A-Z]', x):
+            pat.append(('w', x))
+        else:
+            pat.extend(('t', y) for y in texts(toks_of(x)))
+    assert pat and pat[0][0] == 't'
+    lead = []
+    for kd, v in pat:
+        if kd != 't':
+            break
+        lead.append(v)
+    hay = texts(toks)
+    def match_at(k):
+        cur = k
+        caps = {}
+        for kd, v in pat:
+            if kd == 't':
+                if cur >= len(toks) or hay[cur] != v:
+                    return None
+                cur += 1
+            else:
+                e = expr_end(toks, cur)
+                if e == cur:
+                    return None
+                caps[v] = toks[cur:e]
+                cur = e
+        return cur, caps
+    found = []
+    s = 0
+    while True:
+        k = find_sub(hay, lead, s)
+        if k < 0:
+            break
+        m = match_at(k)
+        if m:
+            found.append((k, m[0], m[1]))
+            s = m[0]
+        else:
+            s = k + 1
+    if count == '*':
+        if not found:
+            raise LostAnchor('%s: `%s` not found' % (rule, frm))
+    elif len(found) != count:
+        raise LostAnchor('%s: `%s` found %d times, expected %s' % (rule, frm, len(found), count))
+    out = []
+    last = 0
+    for k, e, caps in found:
+        out.extend(toks[last:k])
+        rep = []
+        for x in re.split(r'(\$[A-Z])\b', to):
+            if re.fullmatch(r'\$[A-Z]', x):
+                rep.extend(clone(caps[x]))
+            else:
+                rep.extend(T(x))
+        if rep:
+            rep[0].trivia = toks[k].trivia
+        out.extend(rep)
+        last = e
+    out.extend(toks[last:])
+    hits[rule] = hits.get(rule, 0) + len(found)
+    return out
+
+
 def expr_end(toks, i):
     """toks[i] starts an expression; returns index one past it: stops at a depth-0 ';' ',' or an unmatched
     closing bracket."""
@@ -502,6 +574,9 @@ def apply_hoist(toks, hoist, hits):
     'stmt') that starts with start_text is cut out and replaced by helper_call_text; the cut text is returned
     for the helper's body."""
     rule, call, start, kind = hoist
+    keep = kind.startswith('keep-')   # the text is only recorded (for the Kani harness) and stays where it is
+    if keep:
+        kind = kind[5:]
     st = texts(toks_of(start))
     hay = texts(toks)
     k = find_sub(hay, st)
@@ -528,6 +603,8 @@ def apply_hoist(toks, hoist, hits):
     else:
         e = expr_end(toks, k)
         cut = toks[k:e]
+    if keep:
+        return toks, clone(cut)
     rep = T(call)
     if rep:
         rep[0].trivia = toks[k].trivia
